@@ -21,6 +21,8 @@ type W struct {
 	bufs    []*simrt.Buf
 	opSeq   int
 	pat     byte
+	// opFacts are attached to a violation raised by a panic (library crash) during the current operation.
+	opFacts map[string]string
 }
 
 func newW(prop string, t *simrt.Tape, trace bool) *W {
